@@ -1845,7 +1845,7 @@ func main() {
 	}
 
 	// seeded mixtures: several concurrent exchanges (both directions, mallory's own among them), several attacks
-	nRandom := 300
+	nRandom := 220
 	if args.Tier == "thorough" {
 		nRandom = 3000
 	}
